@@ -11,6 +11,7 @@ pub mod dsio;
 pub mod c26;
 pub mod c27;
 pub mod c28;
+pub mod c29;
 
 pub fn register(v: &mut Vec<CheckDef>) {
     v.push(dsio::def_c01());
@@ -24,5 +25,6 @@ pub fn register(v: &mut Vec<CheckDef>) {
     v.push(c26::def());
     v.push(c27::def());
     v.push(c28::def());
+    v.push(c29::def());
     v.push(c34::def());
 }
